@@ -133,10 +133,11 @@ def theorem_names(path):
 def lean_obligations(prop, log):
     """Returns (obligations, discharged, broken list, detail)."""
     broken = []
-    rc, out = sh([sys.executable, os.path.join(ROOT, "tools", "gen_tables.py")])
-    log.append(out.strip())
-    if rc != 0:
-        broken.append("translator gen_tables.py failed: " + out.strip()[-300:])
+    for tr in ("gen_tables.py", "gen_code.py"):
+        rc, out = sh([sys.executable, os.path.join(ROOT, "tools", tr)])
+        log.append(out.strip())
+        if rc != 0:
+            broken.append("translator %s failed: %s" % (tr, out.strip()[-300:]))
     # a property's theorems live in Props/Cxx.lean and, where a later layer had to import the first
     # (to avoid import cycles), in Props/Cxx<Suffix>.lean; names are kept as "<module>.<theorem>"
     import glob as _glob
@@ -518,7 +519,7 @@ def main():
                 "Lean 4.33.0 kernel; axioms allowed: propext, Classical.choice, Quot.sound (audited per theorem on this run)",
                 "Model /verif/lean/UBidi/Model (hand transcription of the crate) tied to /repo by this run's correspondence only",
                 "Spec /verif/lean/UBidi/Spec as the reading of UAX #9 and of the property statement",
-                "translator tools/gen_tables.py for tables.rs and the constants 125/126/63",
+                "translators tools/gen_tables.py (tables.rs, constants 125/126/63) and tools/gen_code.py (level.rs functions, class predicates, match-arm class sets)",
                 "harness + driver + line protocol; Rust std (str, char::decode_utf16, Vec/SmallVec, sort_by_key, binary_search_by)",
             ],
             "theorems": names,
